@@ -21,6 +21,9 @@ theorem extract_ok_kind {a b : Arg} (hk : a.kind = b.kind) {v : Bytes} {t : Tok}
   · cases hp : parseUnsigned u64Max v <;> rw [hp] at h <;> simp_all
   · exact h
   · cases hp : parseUnsigned u32Max (lossy v) <;> rw [hp] at h <;> simp_all
+  · cases hp : parseI64 v with
+    | none => rw [hp] at h; simp_all
+    | some i => rw [hp] at h; simp only at h ⊢; exact h
 
 def sameKinds : List Arg → List Arg → Bool
   | [], [] => true
